@@ -61,6 +61,9 @@ pub struct Abs {
     /// number of seeks that may still succeed (concrete counter); later seeks fail with an error —
     /// lets a harness end a parser right after the position arithmetic under study
     pub max_seeks: u32,
+    /// when set, the first `read` returns at most 7 bytes (a source that hands out fewer bytes than
+    /// asked; nondeterministic counts on every call did not finish in 20 min)
+    pub short_reads: bool,
 }
 
 impl Abs {
@@ -78,6 +81,7 @@ impl Abs {
             calls: 0,
             all_or_nothing: false,
             max_seeks: u32::MAX,
+            short_reads: false,
         }
     }
     pub fn strict(len: u64, pos: u64) -> Self {
@@ -127,6 +131,14 @@ impl Read for Abs {
         let avail = core::cmp::min(self.len.saturating_sub(self.pos), self.budget);
         let n = if self.all_or_nothing {
             if avail >= buf.len() as u64 { buf.len() } else { 0 }
+        } else if self.short_reads {
+            // a source whose FIRST read hands out at most 7 bytes (fewer than a tag, fewer than
+            // asked), later reads everything asked
+            if self.calls == 1 {
+                core::cmp::min(core::cmp::min(avail, buf.len() as u64), 7) as usize
+            } else {
+                core::cmp::min(avail, buf.len() as u64) as usize
+            }
         } else {
             core::cmp::min(avail, buf.len() as u64) as usize
         };
